@@ -147,8 +147,23 @@ class C11Three(Harness):
             Vs[k] = V(env, R[k], dim)
             ds[k] = mk(env, cls, P[k], R[k], env.const(F(1, 2)), diffuse)
         tot = Vs["a"] + Vs["b"] + Vs["c"]
-        left = ds["a"].merge(ds["b"]).merge(ds["c"])
-        right = ds["a"].merge(ds["b"].merge(ds["c"]))
+        ab = ds["a"].merge(ds["b"])
+        bc = ds["b"].merge(ds["c"])
+
+        def pair_ok(tag, m, x, y):
+            env.prove_eq(f"{tag}: volume", V(env, env.num(m.radius), dim), Vs[x] + Vs[y])
+            for i in range(dim):
+                env.prove_eq(f"{tag}: centre of mass[{i}]", env.num(m.position[i]) * (Vs[x] + Vs[y]),
+                             Vs[x] * P[x][i] + Vs[y] * P[y][i])
+
+        env.prove("results of different merges are different objects with their own data",
+                  not env.same_object(ab, bc) and not env.same_object(ab.data, bc.data))
+        pair_ok("a+b still intact after the unrelated merge b+c", ab, "a", "b")
+        pair_ok("b+c", bc, "b", "c")
+        left = ab.merge(ds["c"])
+        right = ds["a"].merge(bc)
+        pair_ok("operand a+b not modified by (a+b)+c", ab, "a", "b")
+        pair_ok("operand b+c not modified by a+(b+c)", bc, "b", "c")
         fold = ds["a"].copy()
         fold.merge(ds["b"], inplace=True)
         fold.merge(ds["c"], inplace=True)
